@@ -191,6 +191,19 @@ func onResourceRuleUpdate(res string, rule *Rule) (err error) {
 		}
 	}()
 
+	if rule.Rule == nil || IsValidRule(rule) != nil || circuitbreaker.IsValidRule(rule.Rule) != nil {
+		// An invalid rule is ignored, exactly as LoadRules does: the resource is left without a rule
+		// (the previously loaded one must not stay in force) and the load is remembered, so that an
+		// identical reload is recognised.
+		logging.Warn("[Outlier onResourceRuleUpdate] Ignoring invalid outlier ejection rule", "rule", rule)
+		updateMux.Lock()
+		delete(nodeBreakers, res)
+		delete(breakerRules, res)
+		delete(outlierRules, res)
+		updateMux.Unlock()
+		currentRules[res] = rule
+		return nil
+	}
 	circuitRule := rule.Rule
 	if err = IsValidRule(rule); err != nil {
 		logging.Warn("[Outlier onResourceRuleUpdate] Ignoring invalid outlier ejection rule", "rule", rule, "err", err.Error())
